@@ -18,7 +18,7 @@ def rule_s(ck, F):
     def cl(v, n): return ('f', 'as_usize', ('f', 'clamp', v, ('c', 0), ('f', 'satsub', n, ('c', 1))))
     X = ('fld', ('v', 'pos'), (0,)); Y = ('fld', ('v', 'pos'), (1,))
     idx = mk_add([mk_mul([cl(Y, ('v', 'num_rows')), ('v', 'samples_per_row')]), cl(X, ('v', 'samples_per_row'))])
-    ok = len(got) == 1 and find(got[0], lambda z: z == ('f', 'get', ('v', 'pixel_array'), idx)) and show(got[0]).startswith('expect(copied(get(')
+    ok = len(got) == 1 and find(got[0], lambda z: z == ('f', 'get', ('v', 'pixel_array'), idx)) and show(got[0]).startswith('expect(get(')
     if ok: ck.ok('S', 'read_sample = pixel_array[%s]' % show(idx), where_of(b))
     else: ck.violation('S', 'S : read_sample : form', where_of(b), 'read_sample returns %s; expected pixel_array.get(%s)' % ([show(x) for x in got], show(idx)))
 
